@@ -15,7 +15,9 @@ K = dict(
     TWIN=901,    # twin-run variant (C20)
     DELIVER_SMALL=903,
     ALL_STREAMS_SEEN=904,
-    FOLLOW_ONE=905,  # monitor-only (C15): one genuine datagram from the new address obliges the server to follow
+    FOLLOW_ONE=905,
+    CID_ECHO_STRICT=906,  # monitor-only (C14): the mutated transport parameters break the CID echo and must be rejected
+  # monitor-only (C15): one genuine datagram from the new address obliges the server to follow
   # monitor-only: loss-free path, every stream the client opened reaches the server application  # monitor-only: every accepted small datagram must be delivered (loss-free path)
 )
 KN = {v: k for k, v in K.items()}
